@@ -36,6 +36,7 @@ type Field struct {
 type StructDef struct {
 	Name   string  `json:"name"`
 	Fields []Field `json:"fields"`
+	Emb    string  `json:"emb,omitempty"` // name of the field that is embedded (declared by its type only; its name is the type name)
 }
 
 // Global is a package-level variable; Init is nil for a zero-valued declaration.
@@ -103,7 +104,7 @@ func (p *printer) line(f string, a ...any) {
 
 func prec(op string) int {
 	switch op {
-	case "*", "/", "%", "<<", ">>", "&":
+	case "*", "/", "%", "<<", ">>", "&", "&^":
 		return 5
 	case "+", "-", "|", "^":
 		return 4
@@ -198,6 +199,8 @@ func expr(n *Node) string {
 		return n.T + "{" + exprList(n.A) + "}"
 	case "funclit":
 		return "func(p0 int) int { return " + expr(n.A[0]) + " }"
+	case "mval":
+		return postfixOperand(n.A[0]) + "." + n.S // a method value: x.m
 	case "recover":
 		return "recover()"
 	case "deref":
@@ -428,6 +431,18 @@ func (p *printer) stmt(n *Node) {
 		p.line("delete(%s, %s)", expr(n.A[0]), expr(n.A[1]))
 	case "use":
 		p.use(n.S)
+	case "typeswitch":
+		p.labelLine(n)
+		p.line("switch any(%s).(type) {", expr(n.A[0]))
+		for _, c := range n.B {
+			if c.S == "" {
+				p.line("default:")
+			} else {
+				p.line("case %s:", c.S)
+			}
+			p.block(c.B)
+		}
+		p.line("}")
 	case "label":
 		p.ind--
 		p.line("%s:", n.S)
@@ -551,6 +566,10 @@ func (pr *Prog) Source(pkg string) string {
 		p.line("type %s struct {", s.Name)
 		p.ind++
 		for _, f := range s.Fields {
+			if f.Name == s.Emb {
+				p.line("%s", f.Type)
+				continue
+			}
 			p.line("%s %s", f.Name, f.Type)
 		}
 		p.ind--
